@@ -17,3 +17,138 @@ Definition run_purity (x : list Z * list nat) : list Z * list nat :=
 Definition eq_purity (a b : list Z * list nat) : bool :=
   list_eqb Z.eqb (fst a) (fst b) && list_eqb Nat.eqb (snd a) (snd b).
 Definition bad_purity := report run_purity eq_purity.
+
+(* ------------------------------------------------------------------------------------------ *)
+(* Clean-room design (WP9).  The library is modelled with everything a Python module can do to
+   break C15: a call reads and updates a HIDDEN state (module globals, caches, flags), reads the
+   environment of argument objects and may hand back a modified environment.  Between calls the
+   USER may edit the environment in any way (in-place scaling of the signal, refilling a buffer,
+   editing an option dictionary entry, replacing a table column) — that is legitimate.
+   The clean-room reference of a call is the same call executed on the CURRENT environment in a
+   freshly started process: hidden state [s0]. *)
+Section CleanRoom.
+Context {St Env Arg Res Mut : Type}.
+Variable lib : St -> Env -> Arg -> St * Env * Res.
+Variable s0 : St.
+Variable user : Mut -> Env -> Env.
+
+Inductive hstep : Type := HCall (a : Arg) | HMut (m : Mut).
+
+Definition lib_st (s : St) (e : Env) (a : Arg) : St := fst (fst (lib s e a)).
+Definition lib_env (s : St) (e : Env) (a : Arg) : Env := snd (fst (lib s e a)).
+Definition lib_res (s : St) (e : Env) (a : Arg) : Res := snd (lib s e a).
+
+(* a history, executed in ONE process starting in hidden state s: final hidden state, final
+   environment, and for every call the environment it was made on, its argument and its result *)
+Fixpoint run_hist (s : St) (e : Env) (l : list hstep) : St * Env * list (Env * Arg * Res) :=
+  match l with
+  | [] => (s, e, [])
+  | HCall a :: t =>
+      let '(s2, e2, tr) := run_hist (lib_st s e a) (lib_env s e a) t in
+      (s2, e2, (e, a, lib_res s e a) :: tr)
+  | HMut m :: t => run_hist s (user m e) t
+  end.
+Definition hist_state (s : St) (e : Env) (l : list hstep) : St := fst (fst (run_hist s e l)).
+Definition hist_env (s : St) (e : Env) (l : list hstep) : Env := snd (fst (run_hist s e l)).
+Definition hist_trace (s : St) (e : Env) (l : list hstep) : list (Env * Arg * Res) := snd (run_hist s e l).
+
+(* the clean-room call: pristine hidden state, current environment *)
+Definition cleanroom (e : Env) (a : Arg) : Res := lib_res s0 e a.
+
+(* what the user alone does to the environment, and the calls as the user sees them *)
+Fixpoint user_env (e : Env) (l : list hstep) : Env :=
+  match l with
+  | [] => e
+  | HCall _ :: t => user_env e t
+  | HMut m :: t => user_env (user m e) t
+  end.
+Fixpoint user_calls (e : Env) (l : list hstep) : list (Env * Arg) :=
+  match l with
+  | [] => []
+  | HCall a :: t => (e, a) :: user_calls e t
+  | HMut m :: t => user_calls (user m e) t
+  end.
+
+(* C15 for one call: the result is a function of the argument values, whatever happened before
+   in the process, and the argument objects are handed back unchanged *)
+Definition value_function : Prop :=
+  forall s e a, lib_res s e a = cleanroom e a /\ lib_env s e a = e.
+
+(* what the check observes on a history started in a fresh process: every call made on exactly
+   the environment the user built, every result equal to its clean-room reference, final
+   environment = the user's *)
+Definition history_clean (s : St) (e : Env) (l : list hstep) : Prop :=
+  hist_trace s e l = map (fun ea => (fst ea, snd ea, cleanroom (fst ea) (snd ea))) (user_calls e l)
+  /\ hist_env s e l = user_env e l.
+
+Definition reachable (s : St) : Prop := exists e l, hist_state s0 e l = s.
+End CleanRoom.
+Arguments HCall {Arg Mut} a.
+Arguments HMut {Arg Mut} m.
+
+(* --- three libraries that are NOT value functions; each is refuted by a short history ---------- *)
+(* (1) a cache keyed by OBJECT IDENTITY: environment = (object id, contents); the analysis is
+       contents + setting; the cache remembers (id, setting) -> result *)
+Definition idc_env := (nat * Z)%type.
+Definition idc_state := list (nat * nat * Z).
+Fixpoint idc_lookup (k : nat * nat) (s : idc_state) : option Z :=
+  match s with
+  | [] => None
+  | (i, n, r) :: t => if Nat.eqb i (fst k) && Nat.eqb n (snd k) then Some r else idc_lookup k t
+  end.
+Definition idc_honest (e : idc_env) (n : nat) : Z := (snd e + Z.of_nat n)%Z.
+Definition idc_lib (s : idc_state) (e : idc_env) (n : nat) : idc_state * idc_env * Z :=
+  match idc_lookup (fst e, n) s with
+  | Some r => (s, e, r)
+  | None => ((fst e, n, idc_honest e n) :: s, e, idc_honest e n)
+  end.
+(* the user scales the contents in place: same object, new values *)
+Definition idc_user (c : Z) (e : idc_env) : idc_env := (fst e, (snd e * c)%Z).
+
+(* (2) a cache keyed by a PARTIAL key: the contents are in the key, the setting is not *)
+Definition pkc_state := list (Z * Z).
+Fixpoint pkc_lookup (k : Z) (s : pkc_state) : option Z :=
+  match s with [] => None | (v, r) :: t => if Z.eqb v k then Some r else pkc_lookup k t end.
+Definition pkc_lib (s : pkc_state) (e : idc_env) (n : nat) : pkc_state * idc_env * Z :=
+  match pkc_lookup (snd e) s with
+  | Some r => (s, e, r)
+  | None => ((snd e, idc_honest e n) :: s, e, idc_honest e n)
+  end.
+
+(* (3) a module-level flag set by a helper called with a non-default option (argument 0 = the
+       helper, any other argument = an analysis with that setting): every later analysis is
+       wrong in the same way, so repeated analyses agree with each other *)
+Definition flag_lib (s : bool) (e : idc_env) (n : nat) : bool * idc_env * Z :=
+  match n with
+  | O => (true, e, 0%Z)
+  | _ => (s, e, if s then (idc_honest e n + 1)%Z else idc_honest e n)
+  end.
+
+Definition trace_results {Env Arg Res : Type} (tr : list (Env * Arg * Res)) : list Res := map snd tr.
+
+(* --- correspondence instance ------------------------------------------------------------------
+   environment = list of content hashes of the shared argument objects; a call is identified by
+   the number of its (function, settings) combination; its result is a function of (number,
+   environment) only; a user edit is given by the environment it produces.  For every call the
+   runner reports: the ordinal of the first call with the same number on an equal environment
+   (equal calls on equal values give equal results), whether the history result equals the
+   clean-room result, whether the environment came back unchanged. *)
+Definition ci_lib (s : unit) (e : list Z) (a : nat) : unit * list Z * (nat * list Z) := (s, e, (a, e)).
+Definition ci_user (m : list Z) (_ : list Z) : list Z := m.
+Definition ci_res_eqb (x y : nat * list Z) : bool := Nat.eqb (fst x) (fst y) && list_eqb Z.eqb (snd x) (snd y).
+Fixpoint ci_first (r : nat * list Z) (l : list (nat * list Z)) (i : nat) : nat :=
+  match l with [] => i | x :: t => if ci_res_eqb x r then i else ci_first r t (S i) end.
+Definition ci_records (tr : list (list Z * nat * (nat * list Z))) : list (nat * bool * bool) :=
+  let rs := trace_results tr in
+  map (fun c => let '(e, a, r) := c in
+                (ci_first r rs 0,
+                 ci_res_eqb r (cleanroom ci_lib tt e a),
+                 list_eqb Z.eqb (lib_env ci_lib tt e a) e)) tr.
+Definition run_cleanroom (x : list Z * list (@hstep nat (list Z))) : list Z * list (nat * bool * bool) :=
+  let '(e0, steps) := x in
+  (hist_env ci_lib ci_user tt e0 steps, ci_records (hist_trace ci_lib ci_user tt e0 steps)).
+Definition eq_rec (x y : nat * bool * bool) : bool :=
+  Nat.eqb (fst (fst x)) (fst (fst y)) && Bool.eqb (snd (fst x)) (snd (fst y)) && Bool.eqb (snd x) (snd y).
+Definition eq_cleanroom (a b : list Z * list (nat * bool * bool)) : bool :=
+  list_eqb Z.eqb (fst a) (fst b) && list_eqb eq_rec (snd a) (snd b).
+Definition bad_cleanroom := report run_cleanroom eq_cleanroom.
